@@ -1168,14 +1168,17 @@ def default_filter_probe(ctx):
     """[T] `a disconnected graph is handled WITH A WARNING` as the caller experiences it: in a fresh interpreter under
     Python's own warning filters (the other streams record with simplefilter("always"), which would hide a filter that
     `import persim` installs), the call must deliver a warning"""
-    res = common.warnings_under_default_filters(DEFAULT_FILTER_STMT)
-    if res is None:
-        ctx.count("default_filter_probe:not_run")
-        return
-    ctx.test("warning_reaches_caller_under_default_filters", res[0] >= 1)
-    if res[0] < 1:
-        ctx.violation("no warning reaches the caller under the interpreter's default warning filters for: %s" % DEFAULT_FILTER_STMT,
-                      {"op": "default_filter_probe", "stmt": DEFAULT_FILTER_STMT}, found_input=True)
+    for prelude in (None, common.WARN_PRELUDE):          # alone, and after other public persim calls in the same process
+        res = common.warnings_under_default_filters(DEFAULT_FILTER_STMT, prelude)
+        if res is None:
+            ctx.count("default_filter_probe:not_run")
+            continue
+        ctx.test("warning_reaches_caller_under_default_filters", res[0] >= 1)
+        if res[0] < 1:
+            ctx.violation("no warning reaches the caller under the interpreter's default warning filters%s for: %s"
+                          % (" after other persim calls in the same process" if prelude else "", DEFAULT_FILTER_STMT),
+                          {"op": "default_filter_probe", "stmt": DEFAULT_FILTER_STMT, "prelude": prelude}, found_input=True)
+            return
 
 
 def run(ctx):
@@ -1216,7 +1219,7 @@ def replay(ctx, rep):
     c = rep["case"]
     op = c.get("op")
     if op == "default_filter_probe":
-        res = common.warnings_under_default_filters(c["stmt"])
+        res = common.warnings_under_default_filters(c["stmt"], c.get("prelude"))
         print("warnings delivered under default filters:", res)
         return res is None or res[0] >= 1
     if op == "dist":
